@@ -9,7 +9,7 @@ PROP = {'title': 'raw_vector and buffer behave like std::vector for every operat
                "history' needs.",
  'level_note': 'size caps (single vector 5/6, pair 2/3, buffer read area 3/4); element type int; capacity slack is truncated in the '
                'canonical state (argument in harness/C07.cpp); std::vector is the trusted reference',
- 'binaries': [{'name': 'C07', 'sources': ['harness/C07.cpp'], 'libs': [], 'flavour': 'asan'}],
+ 'binaries': [{'name': 'C07', 'sources': ['harness/C07.cpp'], 'libs': ['core'], 'flavour': 'asan'}],
  'deadline': {'quick': 300, 'thorough': 1500},
  'rule': 'BFS over histories of raw_vector/buffer operations; a transition is non-trivial when it changes the canonical state (contents, '
          'truncated capacity slack, null-storage flag); states are distinct canonical keys',
